@@ -38,6 +38,9 @@ pub struct Plan {
     /// unrelated document on the same thread before it answers (an include mechanism, a logging reader, a
     /// validating wrapper): two library calls nested on one thread
     pub nested_at: Option<usize>,
+    /// slow source: at this fill_buf call `delay_secs` of simulated time pass on the reading thread before it answers
+    pub delay_at: Option<usize>,
+    pub delay_secs: u64,
 }
 
 /// what a re-entrant byte source does; set by the session runner (it lives in session.rs, which knows the library)
@@ -63,10 +66,10 @@ fn park_here() -> bool {
 
 impl Plan {
     pub fn slice() -> Plan {
-        Plan { cuts: vec![], eintr: vec![], fault: Fault::None, bufreader_cap: 0, slice: true, io_once: false, park_at: None, nested_at: None }
+        Plan { cuts: vec![], eintr: vec![], fault: Fault::None, bufreader_cap: 0, slice: true, io_once: false, park_at: None, nested_at: None, delay_at: None, delay_secs: 0 }
     }
     pub fn whole() -> Plan {
-        Plan { cuts: vec![], eintr: vec![], fault: Fault::None, bufreader_cap: 0, slice: false, io_once: false, park_at: None, nested_at: None }
+        Plan { cuts: vec![], eintr: vec![], fault: Fault::None, bufreader_cap: 0, slice: false, io_once: false, park_at: None, nested_at: None, delay_at: None, delay_secs: 0 }
     }
     pub fn is_trivial(&self) -> bool {
         self.slice || (self.cuts.is_empty() && self.eintr.is_empty() && self.fault == Fault::None && self.bufreader_cap == 0)
@@ -93,6 +96,10 @@ impl Plan {
         if let Some(k) = self.nested_at {
             o.put("nested_at", J::Int(k as i64));
         }
+        if let Some(k) = self.delay_at {
+            o.put("delay_at", J::Int(k as i64));
+            o.put("delay_secs", J::Int(self.delay_secs as i64));
+        }
         o
     }
     pub fn from_j(j: &J) -> Result<Plan, String> {
@@ -114,6 +121,8 @@ impl Plan {
         p.io_once = matches!(j.get("io_once"), Some(J::Bool(true)));
         p.park_at = j.int_of("park_at").ok().map(|k| k as usize);
         p.nested_at = j.int_of("nested_at").ok().map(|k| k as usize);
+        p.delay_at = j.int_of("delay_at").ok().map(|k| k as usize);
+        p.delay_secs = j.int_of("delay_secs").unwrap_or(0) as u64;
         Ok(p)
     }
 
@@ -232,6 +241,7 @@ pub struct ReadStats {
     pub eof_polls: u64,
     pub parked: u64,
     pub nested: u64,
+    pub delayed: u64,
 }
 
 pub struct SimReader<'a> {
@@ -280,6 +290,10 @@ impl<'a> BufRead for SimReader<'a> {
         }
         if self.plan.park_at == Some(idx) && park_here() {
             self.stats.parked += 1;
+        }
+        if self.plan.delay_at == Some(idx) {
+            crate::entropy::advance_clock(self.plan.delay_secs);
+            self.stats.delayed += 1;
         }
         if self.plan.nested_at == Some(idx) {
             if let Some(f) = NESTED_CALL.get() {
